@@ -638,3 +638,29 @@ func (st *State) bitsLen(x *Term) *Term {
 	}
 	return res
 }
+
+// ---------- miekg/dns codec boundary ----------
+
+func init() {
+	// Truncate is recorded, not encoded: (size, number of additional records at the time of the call)
+	reg("(*github.com/miekg/dns.Msg).Truncate", simple(func(st *State, a []Value) Value {
+		p := a[0].(Ptr)
+		k := "truncate:" + p.key()
+		calls, _ := st.kv[k].([]Value)
+		extra := st.load(p.sub(st.fieldIndex(p, "Extra"))).(SliceV)
+		st.kv[k] = append(calls, TupleV{a[1], extra.Len})
+		// for messages that fit (the harness bound) the real function only clears Compress
+		st.storeNoRace(p.sub(st.fieldIndex(p, "Compress")), st.tt.False)
+		return nil
+	}))
+	vrtPrims["vrtFitsUDP"] = simple(func(st *State, a []Value) Value {
+		p := a[0].(Ptr)
+		calls, _ := st.kv["truncate:"+p.key()].([]Value)
+		if len(calls) != 1 {
+			return st.tt.False
+		}
+		c := calls[0].(TupleV)
+		extra := st.load(p.sub(st.fieldIndex(p, "Extra"))).(SliceV)
+		return st.tt.And(st.tt.Eq(c[0].(*Term), a[1].(*Term)), st.tt.Eq(c[1].(*Term), extra.Len))
+	})
+}
